@@ -213,6 +213,45 @@ def finding_key(meta, r):
     return key, what
 
 
+DEEP_SHAPES = ['obj', 'local', 'paren', 'array', 'if', 'func', 'fieldchain', 'indexchain', 'callchain', 'binchain', 'unary',
+               'objext', 'arraycomp', 'assert', 'error']
+
+
+def deep_source(shape, d):
+    """source text whose syntax tree is d levels deep, in different grammatical shapes"""
+    if shape == 'obj':
+        return '{a:' * d + '1' + '}' * d
+    if shape == 'local':
+        return 'local a = ' * d + '1' + '; a' * d
+    if shape == 'paren':
+        return '(' * d + '1' + ')' * d
+    if shape == 'array':
+        return '[' * d + ']' * d
+    if shape == 'if':
+        return 'if true then ' * d + '1'
+    if shape == 'func':
+        return 'local f = ' + 'function(x) ' * d + '1; 1'
+    if shape == 'fieldchain':
+        return 'local x = {a: self}; x' + '.a' * d + '.a == null'
+    if shape == 'indexchain':
+        return 'local x = {a: self}; x' + '["a"]' * d + '.a == null'
+    if shape == 'callchain':
+        return 'local f(x) = f; std.type(f' + '(1)' * d + ')'
+    if shape == 'binchain':
+        return '1' + '+1' * d
+    if shape == 'unary':
+        return '-' * d + '1'
+    if shape == 'objext':
+        return '{}' + ' {a: 1}' * d
+    if shape == 'arraycomp':
+        return '[1 for x in ' * d + '[1]' + ']' * d + ' == null'
+    if shape == 'assert':
+        return 'assert true; ' * d + '1'
+    if shape == 'error':
+        return 'local x = ' + 'error ' * d + '"e"; 1'
+    raise ValueError(shape)
+
+
 def cli_stream(run, cli, rng, tier):
     """exit status is always 0, 1 or 2: programs x ext-var/TLA bindings through the real binary;
     plus the deep-nesting probes (native recursion of the parser)"""
@@ -239,20 +278,12 @@ def cli_stream(run, cli, rng, tier):
             jobs.append((mode + argv + ['-e', p], None))
         # deep nesting probes (source text nested d levels) -> native recursion in the parser
         for d in ([300, 3000] if tier == 'quick' else [300, 3000, 30000]) + [200000]:
-            for shape in ('obj', 'local', 'paren', 'array'):
-                if shape == 'array' and d > 3000:
+            for shape in DEEP_SHAPES:
+                if shape in ('array', 'arrayidx') and d > 3000:
                     continue   # manifestation of [[[...]]] is quadratic: slow, not a crash
-                if shape == 'obj':
-                    src = '{a:' * d + '1' + '}' * d
-                elif shape == 'local':
-                    src = 'local a = ' * d + '1' + '; a' * d
-                elif shape == 'paren':
-                    src = '(' * d + '1' + ')' * d
-                else:
-                    src = '[' * d + ']' * d
                 path = os.path.join(tmp, 'deep_%s_%d.jsonnet' % (shape, d))
-                open(path, 'w').write(src)
-                jobs.append((['-s', '1000000', path], ('deep', shape, d)))
+                open(path, 'w').write(deep_source(shape, d))
+                jobs.append((['-s', '10000000', path], ('deep', shape, d)))
 
         def one(job):
             argv, tag = job
@@ -272,7 +303,7 @@ def cli_stream(run, cli, rng, tier):
                     run.nontrivial.add(('cli', rc, tuple(a for a in argv if a.startswith('-'))[:4], tag[1] if tag else ''))
                     continue
                 if tag:
-                    key = 'parser-native-recursion:%s' % tag[1]
+                    key = 'native-recursion:%s' % tag[1]
                     what = 'source nested %d levels (%s): exit status %s (%s)' % (tag[2], tag[1], rc, err.strip().split('\n')[-1][:100])
                     run.violation(key, what, {'kind': 'deep', 'shape': tag[1], 'depth': tag[2]})
                 else:
@@ -327,11 +358,10 @@ def replay(run, path):
         tmp = tempfile.mkdtemp(prefix='rsj-verif-c01.')
         try:
             d, shape = r['depth'], r['shape']
-            src = {'obj': '{a:' * d + '1' + '}' * d, 'local': 'local a = ' * d + '1' + '; a' * d,
-                   'paren': '(' * d + '1' + ')' * d, 'array': '[' * d + ']' * d}[shape]
+            src = deep_source(shape, d)
             p = os.path.join(tmp, 'deep.jsonnet')
             open(p, 'w').write(src)
-            rc = subprocess.run([cli, '-s', '1000000', p], stdout=subprocess.PIPE, stderr=subprocess.PIPE).returncode
+            rc = subprocess.run([cli, '-s', '10000000', p], stdout=subprocess.PIPE, stderr=subprocess.PIPE).returncode
             print('exit status', rc)
             print('REPRODUCED' if rc not in (0, 1, 2) else 'not reproduced')
             return 0 if rc in (0, 1, 2) else 1
